@@ -98,10 +98,11 @@ Lemma linear_valid_phys_converts s y :
 Proof. simpl. intros H. rewrite H. eexists. reflexivity. Qed.
 
 (* ---------- SCALE-LINEAR: continuous and strictly increasing => invertible ---------- *)
+(* the slope of a segment is num / den: it is positive iff num * den is (either may be negative) *)
 Fixpoint continuous_increasing (segs : list lseg) : Prop :=
   match segs with
   | s0 :: ((s1 :: _) as rest) =>
-    0 < num s1 /\
+    0 < num s1 * den s1 /\
     (exists x, lim_usable (shi s0) = Some x /\ lim_usable (slo s1) = Some x /\ seg_i2p s0 x = seg_i2p s1 x) /\
     continuous_increasing rest
   | _ => True
@@ -113,18 +114,18 @@ Proof.
   induction segs as [|s0 segs IH]; intros ref Href H; [reflexivity|].
   destruct segs as [|s1 rest]; [reflexivity|].
   destruct H as (Hn & (x & E1 & E2 & E3) & Hrest).
-  cbn [invertible_from]. replace (ref * num s1 <? 0) with false by nia.
+  cbn [invertible_from]. replace (ref * (num s1 * den s1) <? 0) with false by nia.
   rewrite E1, E2, Z.eqb_refl, E3, Z.eqb_refl. cbn [negb].
-  replace (num s1 =? 0) with false by lia. apply IH; assumption.
+  replace (num s1 =? 0) with false by nia. apply IH; assumption.
 Qed.
 
 Lemma scale_linear_invertible s segs :
-  0 < num s -> continuous_increasing (s :: segs) -> invertible (s :: segs) = true.
+  0 < num s * den s -> continuous_increasing (s :: segs) -> invertible (s :: segs) = true.
 Proof. intros Hs H. unfold invertible. now apply invertible_from_ok. Qed.
 
 (* ... and therefore every physical value some segment accepts can be encoded *)
 Lemma scale_linear_encodes s segs y :
-  0 < num s -> continuous_increasing (s :: segs) ->
+  0 < num s * den s -> continuous_increasing (s :: segs) ->
   valid_phys (MScaleLinear (s :: segs)) (CInt y) = true ->
   exists x, p2i (MScaleLinear (s :: segs)) (CInt y) = COk (CInt x).
 Proof.
@@ -139,7 +140,7 @@ Qed.
 Fixpoint continuous_decreasing (segs : list lseg) : Prop :=
   match segs with
   | s0 :: ((s1 :: _) as rest) =>
-    num s1 < 0 /\
+    num s1 * den s1 < 0 /\
     (exists x, lim_usable (shi s0) = Some x /\ lim_usable (slo s1) = Some x /\ seg_i2p s0 x = seg_i2p s1 x) /\
     continuous_decreasing rest
   | _ => True
@@ -151,13 +152,13 @@ Proof.
   induction segs as [|s0 segs IH]; intros ref Href H; [reflexivity|].
   destruct segs as [|s1 rest]; [reflexivity|].
   destruct H as (Hn & (x & E1 & E2 & E3) & Hrest).
-  cbn [invertible_from]. replace (ref * num s1 <? 0) with false by nia.
+  cbn [invertible_from]. replace (ref * (num s1 * den s1) <? 0) with false by nia.
   rewrite E1, E2, Z.eqb_refl, E3, Z.eqb_refl. cbn [negb].
-  replace (num s1 =? 0) with false by lia. apply IH; assumption.
+  replace (num s1 =? 0) with false by nia. apply IH; assumption.
 Qed.
 
 Lemma scale_linear_encodes_decreasing s segs y :
-  num s < 0 -> continuous_decreasing (s :: segs) ->
+  num s * den s < 0 -> continuous_decreasing (s :: segs) ->
   valid_phys (MScaleLinear (s :: segs)) (CInt y) = true ->
   exists x, p2i (MScaleLinear (s :: segs)) (CInt y) = COk (CInt x).
 Proof.
